@@ -25,7 +25,7 @@ def fresh_hash(cname, path):
     return h1, h2
 
 
-FILE_OPS = [("w", 0), ("w", 1), ("a", 0), ("a", 1), ("cp", 0, 1), ("cp", 1, 0), ("rm", 0), ("rm", 1), ("touch", 0), ("extw", 0), ("extrm", 0), ("exttouch", 0), ("exttouch-sub", 0),
+FILE_OPS = [("w", 0), ("w", 1), ("wempty", 0), ("a", 0), ("a", 1), ("cp", 0, 1), ("cp", 1, 0), ("rm", 0), ("rm", 1), ("touch", 0), ("extw", 0), ("extrm", 0), ("exttouch", 0), ("exttouch-sub", 0),
             ("parent-becomes-file",)]  # the directory holding path 1 is removed and a regular file takes its name
 
 
@@ -80,6 +80,9 @@ def run_file_history(arg):
                 elif k == "w":
                     size += 1
                     objs[op[1]].write("x" * size)
+                    mediated = op[1]
+                elif k == "wempty":
+                    objs[op[1]].write("")  # creates or truncates the file without moving the stream position
                     mediated = op[1]
                 elif k == "a":
                     if not os.path.exists(paths[op[1]]):
@@ -299,7 +302,7 @@ def run(ctx):
     return {"coverage": {
         "states": hist, "transitions": ops, "traces_validated_against_impl": hist, "history_length": L,
         "distinct_validity_outcomes": len(outcomes), "exhaustive": True,
-        "rule": f"for each of 3 file classes all histories of {L} operations over 2 paths (write, append, copy_to, remove, touch through redun; the directory of one path replaced by a regular file; "
+        "rule": f"for each of 3 file classes all histories of {L} operations over 2 paths (write, empty write, append, copy_to, remove, touch through redun; the directory of one path replaced by a regular file; "
         "external write / remove / touch / touch moving the mtime by 0.3 ms inside one millisecond) and for each of 6 directory / file-set classes all histories over a directory tree (member write, remove, "
         "touch, sub-directory member, Dir.copy_to, rmdir, mkdir) on a real filesystem; after every operation: hashing never raises and is "
         "deterministic, an object written/copied through redun has the fresh hash, is_valid() <=> recorded hash == current hash (always true for "
